@@ -4,8 +4,20 @@
   T1 (`order_spec`): the trace function of `Model/TraceSpec.lean` *is* the
   documented order; the theorems below pin it, clause by clause of the
   property's statement, for every program, environment and fuel.
+
+  T2 (`lowerS_trace`): the structured model of the MIR lowering
+  (`Model/LowerS.lean`, `Lowerer::expr` with its lazy `Value`s and the points
+  where each caller materialises them) makes exactly the host calls of the
+  specification, in the same order with the same argument values — for every
+  program of the modelled fragment, every input and every number of loop
+  iterations (induction on the evaluation, no bound).
+
+  T3 (`dce_preserves`, proved in `Props/C01Dce.lean`) restated for an
+  instruction semantics that logs host calls.
 -/
 import RotoV.Lemmas.TraceSpec
+import RotoV.Lemmas.LowerSim
+import RotoV.Props.C01Dce
 
 namespace RotoV.C08
 open RotoV.TraceSpec
@@ -172,7 +184,7 @@ theorem guards_in_source_order (fns : List FnDef) (n : Nat) (env env1 env2 : Env
     (hp : matchPat env v p = some env1)
     (hg : (evalExpr fns n env1 g).yields t (env2, .bool false)) :
     (evalArms fns (n + 1) env v (.armG p g body rest)).tr
-      = t ++ (evalArms fns n (leave env.length env2) v rest).tr := by
+      = t ++ (evalArms fns n (leave env env2) v rest).tr := by
   simp only [evalArms, hp, bind_eq, R.bind_yields hg]
 
 /-- A matching arm whose guard is `true` (or that has no guard) is the selected
@@ -199,5 +211,202 @@ theorem examinee_once (fns : List FnDef) (n : Nat) (env env' : Env) (s : Expr) (
     (h : (evalExpr fns n env s).yields t (env', v)) :
     (evalExpr fns (n + 1) env (.mtch s arms)).tr = t ++ (evalArms fns n env' v arms).tr := by
   simp only [evalExpr, bind_eq, R.bind_yields h]
+
+/-- **The loop condition runs once more than the body**: a `while` loop that
+    ends normally unfolds into `k + 1` evaluations of its condition and `k`
+    runs of its body, alternating, starting and ending with the condition; the
+    calls of the loop are exactly theirs, in that order. -/
+theorem loop_condition_runs_once_more (fns : List FnDef) (c : Expr) (b : Block) (n : Nat)
+    (env env' : Env) (t : Trace) (v : Val) (h : evalWhile fns n env c b = ⟨t, .ok (env', v)⟩) :
+    ∃ cs bs, LoopRun fns c b env cs bs env' ∧ cs.length = bs.length + 1 ∧ t = weave cs bs :=
+  while_unfolds fns c b n env env' t v h
+
+/-! ### T2 — lowerS_trace: the lowering model makes the calls of the specification
+
+  Full statement (`lowerS_trace`): for every function of every program,
+  `lowerFn` is defined and its structured MIR, run from a store that agrees
+  with the arguments, returns the specification's value with the
+  specification's trace.
+
+  Proved here as `lowerS_trace_partial`: the same for every function whose
+  lowering is defined in this version of the model (`lowerFn fd = some code`),
+  i.e. built from literals, variables, host calls and method calls (receiver
+  and arguments), the strict binary operators, `&&`, `||`, `!`, unary `-`,
+  `if`/`else`, `if`, blocks with `let` and expression statements, assignment,
+  compound assignment, `while` (any number of iterations) and `return`.
+  Missing from the model (and so from the theorem): script-function calls,
+  `match` (guards), `for`, `?`, `Some`/`None`, enum constructors, records,
+  field access, lists, f-strings, `accept`/`reject`; `drop` instructions and
+  the `stack_slots` bookkeeping; the passage from structured MIR to the
+  block/label CFG. -/
+
+open RotoV.LowerS in
+/-- Expression level: running the code emitted for `e` and then evaluating the
+    (lazy) value it returned makes the calls of the specification and yields
+    its value; the store still agrees with the environment. -/
+theorem lowerE_trace_partial (fns : List FnDef) (n : Nat) (e : Expr) (env env' : Env) (c c' : Nat)
+    (code : Code) (value : Value) (σ : Store) (t : Trace) (v : Val)
+    (hl : lowerE e c = some (code, value, c')) (ha : Agree env σ)
+    (h : evalExpr fns n env e = ⟨t, .ok (env', v)⟩) :
+    ∃ σ1 t1 t2, ExecC σ code t1 (.normal σ1) ∧ evalValue σ1 value = some (t2, v) ∧ t = t1 ++ t2
+      ∧ Agree env' σ1 := by
+  obtain ⟨σ1, t1, t2, h1, h2, h3, h4, _⟩ := ((sim_all fns n).1 e env c code value c' σ hl ha).1 t env' v h
+  exact ⟨σ1, t1, t2, h1, h2, h3, h4⟩
+
+open RotoV.LowerS in
+/-- … and when `e` leaves the function (`return`), so does its code, after the same calls. -/
+theorem lowerE_return_partial (fns : List FnDef) (n : Nat) (e : Expr) (env : Env) (c c' : Nat)
+    (code : Code) (value : Value) (σ : Store) (t : Trace) (v : Val)
+    (hl : lowerE e c = some (code, value, c')) (ha : Agree env σ)
+    (h : evalExpr fns n env e = ⟨t, .ret v⟩) : ExecC σ code t (.returned v) :=
+  ((sim_all fns n).1 e env c code value c' σ hl ha).2 t v h
+
+/-- What a function body hands back: its value, or the operand of the `return` that ended it. -/
+def bodyValue : Out (Env × Val) → Option Val
+  | .ok (_, v) => some v
+  | .ret v => some v
+  | _ => none
+
+open RotoV.LowerS in
+/-- **T2 `lowerS_trace_partial`.** For every function in the modelled fragment,
+    every environment / store pair that agree, every fuel: if the
+    specification runs the body to a value `v` (at its end or through a
+    `return`) making the calls `t`, then the structured MIR of the function
+    returns `v` after making exactly the calls `t` — and, the structured MIR
+    being deterministic, that is its only behaviour. -/
+theorem lowerS_trace_partial (fns : List FnDef) (fd : FnDef) (code : Code) (n : Nat) (env : Env)
+    (σ : Store) (v : Val) (hl : lowerFn fd = some code) (ha : Agree env σ)
+    (h : bodyValue (evalBlock fns n env fd.body).out = some v) :
+    ExecC σ code (evalBlock fns n env fd.body).tr (.returned v) ∧
+    ∀ t' o', ExecC σ code t' o' → t' = (evalBlock fns n env fd.body).tr ∧ o' = .returned v := by
+  have main : ExecC σ code (evalBlock fns n env fd.body).tr (.returned v) := by
+    simp [lowerFn, Option.bind_eq_some_iff] at hl
+    obtain ⟨cb, xb, ⟨c', hb⟩, rfl⟩ := hl
+    have hB := (sim_all fns n).2.2.2.1 fd.body env 0 cb xb c' σ hb ha
+    cases hr : evalBlock fns n env fd.body with
+    | mk t o =>
+      rw [hr] at h
+      cases o with
+      | ok p =>
+        obtain ⟨env', w⟩ := p
+        simp [bodyValue] at h; subst h
+        obtain ⟨σ1, hx, hv, _, _⟩ := hB.1 t env' w hr
+        have hret : ExecC σ1 [.ret xb] [] (.returned (σ1 xb)) := ExecC.single .ret
+        rw [hv] at hret
+        simpa using ExecC.append hx hret
+      | ret w =>
+        simp [bodyValue] at h; subst h
+        exact ExecC.append_ret _ (hB.2 t w hr)
+      | fuel => simp [bodyValue] at h
+      | stuck w => simp [bodyValue] at h
+  exact ⟨main, fun t' o' h' => ExecC.det h' main⟩
+
+/-! ### T3 — dce_preserves, for a semantics that logs host calls -/
+
+section dce
+open RotoV.Dce
+variable {ι κ ρ : Type}
+
+/-- An instruction semantics whose state carries the ordered log of host calls:
+    `step` gives the calls an instruction makes and the new store. -/
+def traceSem (step : ι → LowerS.Store → Option (Trace × LowerS.Store)) (scrut : κ → LowerS.Store → Nat)
+    (result : ρ → LowerS.Store → Val) : Sem ι κ ρ (LowerS.Store × Trace) (Val × Trace) where
+  exec i s := (step i s.1).map (fun p => (p.2, s.2 ++ p.1))
+  scrut x s := scrut x s.1
+  result r s := (result r s.1, s.2)
+
+/-- **T3.** Dead-code elimination (the model of `mir/dead_code.rs`) changes
+    neither the result nor the ordered log of host calls of any item, for any
+    instruction semantics, fuel, store and log so far. (Corollary of
+    `C01.dce_preserves`, which is stated for an arbitrary state.) -/
+theorem dce_preserves_trace (step : ι → LowerS.Store → Option (Trace × LowerS.Store))
+    (scrut : κ → LowerS.Store → Nat) (result : ρ → LowerS.Store → Val)
+    (cfg cfg' : Cfg ι κ ρ) (h : dce cfg = .ok cfg') (fuel : Nat) (σ : LowerS.Store) (log : Trace) :
+    run (traceSem step scrut result) cfg' fuel (σ, log) = run (traceSem step scrut result) cfg fuel (σ, log) :=
+  RotoV.C01Dce.dce_preserves _ cfg cfg' h fuel (σ, log)
+
+end dce
+
+section nonvacuity
+open RotoV.LowerS
+/-! ### non-vacuity: the hypotheses of the theorems above are met by concrete programs -/
+
+/-- `emit(k, v)` / `emit_b(k, v)` as terms -/
+def emitI (k v : Int) : Expr := .host 0 (.cons (.lit (.int k)) (.cons (.lit (.int v)) .nil))
+def emitB (k : Int) (v : Bool) : Expr := .host 1 (.cons (.lit (.int k)) (.cons (.lit (.bool v)) .nil))
+
+-- operands_left_to_right / arguments_left_to_right / call_after_arguments
+example : (evalExpr [] 9 [] (.bin .sub (emitI 1 7) (emitI 2 5))).tr = [⟨0, [.int 1, .int 7]⟩, ⟨0, [.int 2, .int 5]⟩] := by decide
+example : (evalArgs [] 9 [] (.cons (emitI 1 7) (.cons (emitI 2 5) .nil))).yields
+    [⟨0, [.int 1, .int 7]⟩, ⟨0, [.int 2, .int 5]⟩] ([], [.int 7, .int 5]) := by decide
+-- receiver first: `emit(1,7).mix(emit(2,0), emit(3,5))`
+example : (evalExpr [] 9 [] (.host 5 (.cons (emitI 1 7) (.cons (emitI 2 0) (.cons (emitI 3 5) .nil))))).tr
+    = [⟨0, [.int 1, .int 7]⟩, ⟨0, [.int 2, .int 0]⟩, ⟨0, [.int 3, .int 5]⟩, ⟨5, [.int 7, .int 0, .int 5]⟩] := by decide
+-- no_call_after_leaving_argument: `emit3(1, return 4, emit(2, 5))`
+example : (evalArgs [] 9 [] (.cons (.lit (.int 1)) (.cons (.ret (.lit (.int 4))) (.cons (emitI 2 5) .nil)))).leaves [] (.int 4) := by decide
+-- and_skips / and_continues / or_skips / or_continues
+example : (evalExpr [] 9 [] (emitB 1 false)).yields [⟨1, [.int 1, .bool false]⟩] ([], .bool false) := by decide
+example : (evalExpr [] 9 [] (.and (emitB 1 false) (emitB 2 true))).tr = [⟨1, [.int 1, .bool false]⟩] := by decide
+example : (evalExpr [] 9 [] (.and (emitB 1 true) (emitB 2 true))).tr = [⟨1, [.int 1, .bool true]⟩, ⟨1, [.int 2, .bool true]⟩] := by decide
+example : (evalExpr [] 9 [] (.or (emitB 1 true) (emitB 2 true))).tr = [⟨1, [.int 1, .bool true]⟩] := by decide
+example : (evalExpr [] 9 [] (.or (emitB 1 false) (emitB 2 true))).tr = [⟨1, [.int 1, .bool false]⟩, ⟨1, [.int 2, .bool true]⟩] := by decide
+-- if_selects
+example : (evalExpr [] 9 [] (.ite (emitB 1 false) (.last (emitI 2 0)) (.last (emitI 3 0)))).tr
+    = [⟨1, [.int 1, .bool false]⟩, ⟨0, [.int 3, .int 0]⟩] := by decide
+-- nothing_after_return / statements_top_to_bottom / return_leaves
+example : (evalExpr [] 9 [] (.ret (emitI 1 4))).leaves [⟨0, [.int 1, .int 4]⟩] (.int 4) := by decide
+example : evalSeq [] 9 [] (.stmt (.ret (emitI 1 4)) (.last (emitI 2 5))) = ⟨[⟨0, [.int 1, .int 4]⟩], .ret (.int 4)⟩ := by decide
+example : (evalSeq [] 9 [] (.stmt (emitI 1 4) (.last (emitI 2 5)))).tr = [⟨0, [.int 1, .int 4]⟩, ⟨0, [.int 2, .int 5]⟩] := by decide
+-- accept_leaves / reject_leaves
+example : (evalExpr [] 9 [] (.accept (emitI 1 4))).leaves [⟨0, [.int 1, .int 4]⟩] (.verdict true 4) := by decide
+example : (evalExpr [] 9 [] (.reject (emitI 1 4))).leaves [⟨0, [.int 1, .int 4]⟩] (.verdict false 4) := by decide
+-- question_mark_on_none / on_some: `emit_o(1, 3)?` and `emit_o(1, 4)?`
+example : (evalExpr [] 9 [] (.try (.host 4 (.cons (.lit (.int 1)) (.cons (.lit (.int 3)) .nil))))).leaves
+    [⟨4, [.int 1, .int 3]⟩] (.opt none) := by decide
+example : (evalExpr [] 9 [] (.try (.host 4 (.cons (.lit (.int 1)) (.cons (.lit (.int 4)) .nil))))).yields
+    [⟨4, [.int 1, .int 4]⟩] ([], .int 4) := by decide
+-- compound_assignment_reads_target_first: `x0 += { x0 = 100; emit(1, 1) }` from x0 = 4 stores 5
+example : (evalExpr [] 9 [(0, .int 4)] (.cassign .add 0 (.block (.stmt (.assign 0 (.lit (.int 100))) (.last (emitI 1 1)))))).yields
+    [⟨0, [.int 1, .int 1]⟩] ([(0, .int 5)], .unit) := by decide
+-- examinee_once, guards in source order, only the selected arm:
+-- `match emit_o(1, 4) { Some(x1) if emit_b(2,false) => emit(3,0), _ if emit_b(4,true) => emit(5,0), Some(x2) => emit(6,0), None => emit(7,0) }`
+def demoMatch : Expr :=
+  .mtch (.host 4 (.cons (.lit (.int 1)) (.cons (.lit (.int 4)) .nil)))
+    (.armG (.variant 0 [1]) (emitB 2 false) (.last (emitI 3 0))
+    (.armG .wild (emitB 4 true) (.last (emitI 5 0))
+    (.arm (.variant 0 [2]) (.last (emitI 6 0))
+    (.arm (.variant 1 []) (.last (emitI 7 0)) .nil))))
+example : (evalExpr [] 12 [] demoMatch).tr
+    = [⟨4, [.int 1, .int 4]⟩, ⟨1, [.int 2, .bool false]⟩, ⟨1, [.int 4, .bool true]⟩, ⟨0, [.int 5, .int 0]⟩] := by decide
+-- guard_of_unmatched_pattern_not_run: on `None` the first guard is not evaluated
+example : matchPat [] (.opt none) (.variant 0 [1]) = none := by decide
+-- unguarded_arm_selected
+example : matchPat [] (.opt (some 4)) (.variant 0 [2]) = some [(2, .int 4)] := by decide
+
+-- loop_condition_runs_once_more: `while emit_b(1, x0 < 2) { emit_u(2); x0 = x0 + 1; }` from x0 = 0
+def demoLoopCond : Expr := .host 1 (.cons (.lit (.int 1)) (.cons (.bin .lt (.var 0) (.lit (.int 2))) .nil))
+def demoLoopBody : Block :=
+  .stmt (.host 2 (.cons (.lit (.int 2)) .nil)) (.stmt (.assign 0 (.bin .add (.var 0) (.lit (.int 1)))) .nil)
+example : evalWhile [] 20 [(0, .int 0)] demoLoopCond demoLoopBody
+    = ⟨[⟨1, [.int 1, .bool true]⟩, ⟨2, [.int 2]⟩, ⟨1, [.int 1, .bool true]⟩, ⟨2, [.int 2]⟩, ⟨1, [.int 1, .bool false]⟩],
+       .ok ([(0, .int 2)], .unit)⟩ := by decide
+
+-- T2: `fn main(x0) { x0 - { x0 = 100; emit(1, 1) } }` is in the fragment, and the specification gives it a value
+def demoFn : FnDef :=
+  ⟨[0], .last (.bin .sub (.var 0) (.block (.stmt (.assign 0 (.lit (.int 100))) (.last (emitI 1 1)))))⟩
+example : (lowerFn demoFn).isSome = true := by decide
+example : bodyValue (evalBlock [] 20 [(0, .int 4)] demoFn.body).out = some (.int 3) := by decide
+example : (evalBlock [] 20 [(0, .int 4)] demoFn.body).tr = [⟨0, [.int 1, .int 1]⟩] := by decide
+-- … with a loop and an early return: `{ let x1 = 0; while emit_b(1, x1 < x0) { if emit_b(2, x1 == 1) { return x1; }; x1 += 1; }; x1 }`
+def demoFn2 : FnDef :=
+  ⟨[0], .let_ 1 (.lit (.int 0))
+    (.stmt (.while (.host 1 (.cons (.lit (.int 1)) (.cons (.bin .lt (.var 1) (.var 0)) .nil)))
+      (.stmt (.if1 (.host 1 (.cons (.lit (.int 2)) (.cons (.bin .eq (.var 1) (.lit (.int 1))) .nil))) (.stmt (.ret (.var 1)) .nil))
+      (.stmt (.cassign .add 1 (.lit (.int 1))) .nil)))
+    (.last (.var 1)))⟩
+example : (lowerFn demoFn2).isSome = true := by decide
+example : bodyValue (evalBlock [] 40 [(0, .int 5)] demoFn2.body).out = some (.int 1) := by decide
+example : ((evalBlock [] 40 [(0, .int 5)] demoFn2.body).tr).length = 4 := by decide
+end nonvacuity
 
 end RotoV.C08
